@@ -748,3 +748,51 @@ def vc_worker_stop_strict(fns, variants, work):
         r["verdict"] = "violation"
         r["candidates"] = [{"bb": "-", "stmt": "-", "what": "file patches of the earliest broken patch itself are no longer attempted (index == earliest is unreachable)", "model": {}, "trace": []}]
     return r
+
+
+# ------------------------------------------------------------------------------------------ C04 (driver glue)
+def vc_rollback_direction(fns, variants, work, fn_pat, tag, sig=None):
+    """Every call of FilePatch::rollback in the driver glue passes the direction recorded in the very report it
+    passes as third argument (FilePatchApplyReport::direction(&report)), never a constant."""
+    fn = find_fn(fns, fn_pat, sig)
+    found, reached = [], [0]
+
+    def after_call(eng, st, bb, site, stmt, dst, callee, args, argv):
+        if strip_generics(callee).endswith("FilePatchApplyReport::direction") and dst:
+            dpath, _ = eng.resolve(st, dst)
+            tgt = argv[0][0]
+            if isinstance(tgt, Ref):
+                st.store["ghost:dir_of"] = Ref(tgt.target)
+                st.store["ghost:dir_sym"] = Ref(dpath)
+                st.ghost = st.ghost | {"dir:" + dpath}
+
+    def on_call(eng, st, bb, site, stmt, dst, callee, args, nxt):
+        c = strip_generics(callee)
+        if c.endswith("FilePatch::rollback") or c.endswith("FilePatch::<'_, &[u8]>::rollback") or re.search(r"FilePatch(::<[^>]*>)?::rollback$", callee):
+            reached[0] += 1
+            darg = args[2].strip()
+            rep, _, _ = eng.operand(st, args[3])
+            src = st.store.get("ghost:dir_of")
+            ok_dir = False
+            m = re.match(r"(?:copy|move) (_\d+)$", darg)
+            if m and ("dir:" + m.group(1)) in st.ghost and isinstance(rep, Ref) and isinstance(src, Ref) and rep.target == src.target:
+                ok_dir = True
+            if not ok_dir:
+                found.append({"bb": bb, "stmt": stmt[:200], "what": "rollback is not given the direction recorded in the report it undoes (argument: %s)" % darg[:60],
+                              "model": {}, "trace": list(st.trace[-20:])})
+        return None
+
+    eng = Engine(fns, fn, variants, hooks={"on_call": on_call, "after_call": after_call})
+    seeds = set()
+    for bb, stmts in fn.blocks.items():
+        for s_ in stmts:
+            m = re.match(r"(?:(_\d+) = )?([^=].*?)\((.*)\) -> ", s_)
+            if m and (re.search(r"FilePatch(::<[^>]*>)?::rollback$", m.group(2)) or strip_generics(m.group(2)).endswith("FilePatchApplyReport::direction")):
+                seeds |= set(re.findall(r"_\d+", m.group(3)))
+                if m.group(1):
+                    seeds.add(m.group(1))
+    if not seeds:
+        raise KeyError("no FilePatch::rollback call in %s" % fn.name)
+    eng.seeds = seeds
+    eng.run()
+    return summarize(eng, found, {"rollback_call_sites_reached": reached[0]}, work, tag, witness_ok=reached[0] > 0, witness_note="rollback call not reached")
